@@ -73,8 +73,8 @@ fn gen_cases(seed: u64, n: usize, max_payload: usize) -> Vec<String> {
         let rest_len = match rng.below(4) { 0 => 0, 1 => 1, _ => rng.below(80) } as usize;
         let rest = rng.bytes(rest_len);
         out.push(format!(
-            "i={i} len={} spec={} ver={} ntf={} rsv={} id={} ql={} bl={} qf={} bf={} ec={} q={} b={} cap={} chunks={} rest={} echo={}",
-            hx(length), hx(spec), hx(rng.boundary(8)), hx(rng.boundary(8)), hx(rng.boundary(32)), hx(rng.boundary(64)), hx(ql), hx(blen),
+            "i={i} fw={} len={} spec={} ver={} ntf={} rsv={} id={} ql={} bl={} qf={} bf={} ec={} q={} b={} cap={} chunks={} rest={} echo={}",
+            hx(match rng.below(4) { 0 => rng.range(1, 47), 1 => 48, 2 => rng.range(49, 48 + q.len() as u64 + 1), _ => rng.range(1, 300) }), hx(length), hx(spec), hx(rng.boundary(8)), hx(rng.boundary(8)), hx(rng.boundary(32)), hx(rng.boundary(64)), hx(ql), hx(blen),
             hx(rng.boundary(16)), hx(rng.boundary(16)), hx(rng.boundary(32)), hex(&q), hex(&b), hx(cap as u64),
             if chunks.is_empty() { "-".into() } else { chunks.join(",") }, hex(&rest), if echo_path { 1 } else { 0 }));
     }
@@ -92,6 +92,23 @@ impl tokio::io::AsyncWrite for CapturedAsync {
     fn poll_flush(self: std::pin::Pin<&mut Self>, _: &mut std::task::Context<'_>) -> std::task::Poll<std::io::Result<()>> { std::task::Poll::Ready(Ok(())) }
     fn poll_shutdown(self: std::pin::Pin<&mut Self>, _: &mut std::task::Context<'_>) -> std::task::Poll<std::io::Result<()>> { std::task::Poll::Ready(Ok(())) }
 }
+/// a sink that accepts only part of what it is offered: the first write takes at most `first`
+/// bytes, later ones an irregular 1..=97; vectored writes gather across the slices but stop short
+struct ShortSink { got: Vec<u8>, next: usize }
+impl ShortSink { fn new(first: usize) -> Self { ShortSink { got: Vec::new(), next: first.max(1) } } fn step(&mut self) { self.next = (self.next * 31 + 7) % 97 + 1; } }
+impl std::io::Write for ShortSink {
+    fn write(&mut self, buf: &[u8]) -> std::io::Result<usize> {
+        let n = buf.len().min(self.next);
+        self.got.extend_from_slice(&buf[..n]); self.step(); Ok(n)
+    }
+    fn write_vectored(&mut self, bufs: &[std::io::IoSlice<'_>]) -> std::io::Result<usize> {
+        let mut room = self.next; let mut n = 0;
+        for b in bufs { let k = b.len().min(room); self.got.extend_from_slice(&b[..k]); n += k; room -= k; if room == 0 { break; } }
+        self.step(); Ok(n)
+    }
+    fn flush(&mut self) -> std::io::Result<()> { Ok(()) }
+}
+
 /// a reader that hands out the stream in small irregular pieces
 struct Dribble<'a> { data: &'a [u8], pos: usize, step: usize }
 impl std::io::Read for Dribble<'_> {
@@ -117,6 +134,7 @@ fn run_case(line: &str) -> String {
     let cap = g("cap") as usize;
     let chunks: Vec<usize> = if f["chunks"] == "-" { vec![] } else { f["chunks"].split(',').map(|s| ph(s) as usize).collect() };
     let echo = f["echo"] == "1";
+    let fw = f.get("fw").map(|s| ph(s) as usize).unwrap_or(5);
     let r = guard(move || -> String {
         let m = match Message::new(header, q.clone(), b.clone()) { Ok(m) => m, Err(e) => return format!("new=err:{}", err_kind(&e)) };
         let mut o = String::new();
@@ -124,30 +142,31 @@ fn run_case(line: &str) -> String {
         let tv = m.to_vec();
         o.push_str(&format!(" r0={}", hex(&tv)));
         // write_to
-        let mut w = Vec::new(); m.write_to(&mut w).unwrap();
-        o.push_str(&format!(" r1={}", same_or(&tv, &w)));
+        // write_to / write_message / streaming go to a sink that takes short, irregular writes
+        let mut w = ShortSink::new(fw); m.write_to(&mut w).unwrap();
+        o.push_str(&format!(" r1={}", same_or(&tv, &w.got)));
         // into_wire_bytes with a body Vec of the requested capacity
         let mut body = Vec::with_capacity(cap.max(b.len())); body.extend_from_slice(&b);
         let exact_cap = body.capacity();
         let m2 = Message { header: m.header, query: q.clone(), body };
         o.push_str(&format!(" r2={}", same_or(&tv, &m2.into_wire_bytes())));
         o.push_str(&format!(" capreal={}", hx(exact_cap as u64)));
-        let mut w = Vec::new(); repe::write_message(&mut w, &m).unwrap();
-        o.push_str(&format!(" r3={}", same_or(&tv, &w)));
+        let mut w = ShortSink::new(fw); repe::write_message(&mut w, &m).unwrap();
+        o.push_str(&format!(" r3={}", same_or(&tv, &w.got)));
         let mut w = CapturedAsync(Vec::new());
         net::runtime().block_on(repe::async_io::write_message_async(&mut w, &m)).unwrap();
         o.push_str(&format!(" r4={}", same_or(&tv, &w.0)));
         // streaming: header lengths deliberately wrong, body written in pieces
         let mut h2 = m.header; h2.length = 7; h2.query_length = 9; h2.body_length = 11;
-        let mut w = Vec::new();
-        repe::write_message_streaming(&mut w, h2, &q, b.len() as u64, |w: &mut Vec<u8>| -> Result<(), std::io::Error> {
+        let mut w = ShortSink::new(fw + 3);
+        repe::write_message_streaming(&mut w, h2, &q, b.len() as u64, |w: &mut ShortSink| -> Result<(), std::io::Error> {
             use std::io::Write;
             let mut rem: &[u8] = &b;
             for &c in &chunks { if rem.is_empty() { break; } if c == 0 { break; } let k = c.min(rem.len()); w.write_all(&rem[..k])?; rem = &rem[k..]; }
             if !rem.is_empty() { w.write_all(rem)?; }
             Ok(())
         }).unwrap();
-        o.push_str(&format!(" r5={}", same_or(&tv, &w)));
+        o.push_str(&format!(" r5={}", same_or(&tv, &w.got)));
         // the three servers: the handler returns a prepared response
         {
             let n = netw();
